@@ -89,6 +89,16 @@ func runExhaustive(res *lib.Result, pool *DrvPool, v Variant, r *lib.RNG) {
 				}
 			}
 		}
+		// filters with many alternatives (most absent from the chain), every range, both paths
+		for _, f := range []Filt{{Addrs: []int{7, 8, 9, 10, 0, 11, 7}}, {Keys: [][]int{{5, 6, 7, 8, 9, 10, 0, 11, 12, 4, 5}}},
+			{Addrs: []int{11, 10, 9, 8, 1}, Keys: [][]int{{}, {12, 11, 10, 9, 8, 7, 6, 5, 2}}}} {
+			for from := 0; from <= head; from++ {
+				for to := from; to <= head+1; to++ {
+					w.quietQuery(Q{F: f, From: from, To: to, Chunk: 2, Limit: 0, Rpc: to%2 == 1})
+					n++
+				}
+			}
+		}
 		if !newState {
 			n += w.rpcFamily(filters)
 		}
@@ -114,7 +124,7 @@ func (w *World) rpcFamily(filters []Filt) int {
 	head := len(w.Chain) - 1
 	pre := []Plan{{{Ev{From: 0, Keys: []int{0}}, Ev{From: 1, Keys: []int{1}}}}, {{Ev{From: 0}}}}
 	const l1 = 3
-	_ = w.Node.BC.SetL1Head(&core.L1Head{BlockNumber: l1, BlockHash: lib.F(1), StateRoot: lib.F(2)})
+	w.do(Op{Kind: "l1", N: l1})
 	n := 0
 	for fi := 0; fi < len(filters); fi += 4 {
 		f := filters[fi]
